@@ -64,8 +64,30 @@ def _lam(spec, terms, spin):
 def _build(case):
     cls = cls_of(case["type"])
     terms = case["terms"]
-    if case.get("build", "ctor") == "ctor":
+    how = case.get("build", "ctor")
+    if how == "ctor":
         return cls(terms)
+    if how == "history":
+        # the model had other coefficients on the same keys, was converted with every method, and then got its
+        # coefficients by in-place edits of existing terms: what a conversion returns must depend on the model as it
+        # is now, not on what an earlier conversion saw
+        M = cls({k: 2 * v + 1 for k, v in terms.items()})
+        for t in ("to_qubo", "to_quso", "to_pubo", "to_puso"):
+            getattr(M, t)()
+        for i, (k, v) in enumerate(terms.items()):
+            if i % 3 == 0:
+                M[k] = v
+            elif i % 3 == 1:
+                M[k] += v - (2 * v + 1)
+            else:
+                M[k] -= (2 * v + 1) - v
+        return M
+    if how == "squashed":
+        # spin models only: the first key is written with a label squared (z*z = 1), which denotes the same function
+        # and must leave no trace of that label
+        ks = list(terms)
+        raw = {(k + (JUNK, JUNK) if i == 0 else k): v for i, (k, v) in enumerate(terms.items())}
+        return cls(raw)
     # incremental construction in reversed term order, with a junk label that cancels, then refresh()
     M = cls()
     M[(JUNK,)] += 1
@@ -125,7 +147,10 @@ def _setup(case):
     n = len(vs)
     mapping = M.mapping
     if set(mapping) != set(vs):
-        return Skip("model not in refreshed state (mapping labels != variables)")
+        # every build used here ends in a refreshed state (constructor, or edits followed by refresh()): the mapping
+        # enumerates exactly the model's variables
+        return Fail("mapping %r of a freshly built / refreshed model does not enumerate exactly its variables %r"
+                    % (mapping, vs), key="mapping-labels")
     if sorted(mapping.values()) != list(range(n)):
         return Fail("mapping of a refreshed model is not an enumeration 0..n-1: %r" % (mapping,), key="mapping-enum")
     d = dict(D)
@@ -261,6 +286,17 @@ def _gen(ctx, salt, lams, quick_n, thorough_n, exhaustive=True):
                         yield {"type": tname, "terms": terms, "build": "ctor" if pairs is None else "refresh",
                                "target": t, "deg": deg, "lam": lam, "pairs": pairs}
                     cnt += 1
+    # 2b. the same shapes after a history of conversions and in-place coefficient edits / written with a squared spin
+    for terms in shapes[:4]:
+        for tname in TYPES:
+            for (t, deg) in _targets_for():
+                if deg is None and t not in ("to_qubo", "to_quso"):
+                    continue
+                yield {"type": tname, "terms": terms, "build": "history", "target": t, "deg": deg, "lam": lams[0],
+                       "pairs": None}
+                if tname in SPIN_M:
+                    yield {"type": tname, "terms": terms, "build": "squashed", "target": t, "deg": deg, "lam": lams[0],
+                           "pairs": None}
     # 3. seeded random cases
     rng = ctx.rng(salt)
     for _ in range(ctx.pick(quick_n, thorough_n)):
@@ -270,7 +306,9 @@ def _gen(ctx, salt, lams, quick_n, thorough_n, exhaustive=True):
         terms = _rand_terms(rng, labels, maxdeg, ctx.pick(4, 6))
         t = rng.choice(TARGETS)
         deg = None if t in ("to_qubo", "to_quso") else rng.choice([2, 2, 3, 3, 4, None])
-        yield {"type": rng.choice(TYPES), "terms": terms, "build": rng.choice(["ctor", "ctor", "refresh"]),
+        tname = rng.choice(TYPES)
+        builds = ["ctor", "ctor", "refresh", "history"] + (["squashed"] if tname in SPIN_M else [])
+        yield {"type": tname, "terms": terms, "build": rng.choice(builds),
                "target": t, "deg": deg, "lam": rng.choice(lams), "pairs": _rand_pairs(rng, labels)}
 
 
